@@ -9,6 +9,9 @@
  *                                                     available on the socket, the application closes the session:
  *                                                     coap_ws_close() sends its Close frame and drains the socket for the
  *                                                     peer's.  Output: n=.. drain rc=<recv_close> left=<bytes not read>
+ *   wsself <c|s> <stream-hex>                         the stream is received in one chunk; if the reader closes the session by
+ *                                                     itself (refusal 1002/1003/1009, Close frame) with the handshake done:
+ *                                                     n=.. self rc=<recv_close> left=<bytes of the chunk never read>, else noself
  *   consts                                            the constants the model depends on
  *
  * A "chunk" is what the transport has available when the read event fires.  coap_read_session() is
@@ -206,6 +209,7 @@ static int parse_cuts(char *w, size_t total, size_t *cuts, int max) {
 
 #define MAX_CUTS 1000000
 static int g_close_after_first;   /* wsclose: 1 = only the first chunk is fed, then coap_ws_close() with the rest available */
+static int g_self_close;          /* wsself: one chunk; report what the reader's own coap_ws_close() (refusal / Close frame) left */
 
 static void run_stream(coap_proto_t proto, int server_side, unsigned long csm_max, const uint8_t *stream, size_t len,
                        const size_t *cuts, int ncuts) {
@@ -279,6 +283,17 @@ static void run_stream(coap_proto_t proto, int server_side, unsigned long csm_ma
     return;
   }
 
+  if (g_self_close) {
+    /* closed by the reader itself with the handshake done: coap_ws_close() ran inside coap_ws_read() */
+    if (g_closed && !stuck && s->ws && s->ws->up)
+      printf("n=%d%s self rc=%d left=%lu", g_npdu, g_out, (int)s->ws->recv_close, (unsigned long)g_chunk_left);
+    else
+      printf("n=%d%s noself", g_npdu, g_out);
+    coap_session_release(s);
+    drain_accept();
+    return;
+  }
+
   /* WS: events / nack reason are reported after " # " (informational: BAD_PACKET notifications and what
    * coap_ws_close's socket draining raises are not part of the property); TCP: part of the observation */
   printf("n=%d%s end=%s", g_npdu, g_out, g_closed ? "closed" : stuck ? "stuck" : "open");
@@ -326,6 +341,10 @@ static void step_inner(char *line) {
   if (g_close_after_first) {
     if (strchr(w[3], ',') || !strcmp(w[3], "-")) { printf("bad-op"); return; }
     w[0] = (char *)"ws";
+  }
+  g_self_close = n == 3 && !strcmp(w[0], "wsself");
+  if (g_self_close) {
+    w[0] = (char *)"ws"; w[3] = (char *)"-"; n = 4;
   }
   if (n == 4 && (!strcmp(w[0], "tcp") || !strcmp(w[0], "ws"))) {
     size_t len; uint8_t *b = h_unhex(w[2], &len);
